@@ -308,7 +308,7 @@ func eachC14(maxLen int) func(shard, shards int, ev *evid.Rec, emit func(caseC14
 	}
 }
 
-var c14Words = []string{"#tag", "#Tag", "#TAG", "#tag=v", "#tag=V", "#tag=\"a b\"", "#tag='a b'", "#tag=\"it's\"", "#tag=", "#tag=\"\"", "#tag=\"open", "#a#b", "#x=y=z", "#work,", "(#work)", "#work", "#Work=1", "#work=1", "#読む", "#ü", "#Ü", "#1", "#a_b", "#a-b", "foo", "bar", "#", "=", "#p=\"22/48.3\"", "#İ", "#ǅ", "#tag='say \"hi\"'", "#Straße", "#STRASSE", "#ß", "#ẞ", "#e\u0301x", "#😀", "#tag=😀x", "#i", "#ǆ", "#１２", "#tag=１", "#tag=\"ß\"", "#tag=ẞ", "#tag=ß"}
+var c14Words = []string{"#work-x", "#work2", "#work=a", "#work-x=7", "#tag-2", "#tag2=v", "#tag", "#Tag", "#TAG", "#tag=v", "#tag=V", "#tag=\"a b\"", "#tag='a b'", "#tag=\"it's\"", "#tag=", "#tag=\"\"", "#tag=\"open", "#a#b", "#x=y=z", "#work,", "(#work)", "#work", "#Work=1", "#work=1", "#読む", "#ü", "#Ü", "#1", "#a_b", "#a-b", "foo", "bar", "#", "=", "#p=\"22/48.3\"", "#İ", "#ǅ", "#tag='say \"hi\"'", "#Straße", "#STRASSE", "#ß", "#ẞ", "#e\u0301x", "#😀", "#tag=😀x", "#i", "#ǆ", "#１２", "#tag=１", "#tag=\"ß\"", "#tag=ẞ", "#tag=ß"}
 
 func genC14(t *rapid.T, _ *evid.Rec) caseC14 {
 	line := func(label string) string {
